@@ -330,6 +330,18 @@ func optionVariants(keyPath string) []optionVariant {
 			conf: m{"endpoint": ep(m{"auth": m{"type": "oauth2_client_credentials", "config": m{
 				"token_url": idpURL + "/token", "client_id": "client", "client_secret": "secret", "scopes": []any{"a", "b"}, "cache_ttl": "5m",
 			}}})}},
+		// endpoints in their short form: just the URL
+		{kind: "contextualizers", typ: "generic", name: "endpoint-as-string", replace: true, conf: m{"endpoint": "http://cx.local/ctx"}},
+		{kind: "authorizers", typ: "remote", name: "endpoint-as-string", replace: true,
+			conf: m{"endpoint": "http://az.local/check", "payload": "p"}},
+		{kind: "authenticators", typ: "generic", name: "endpoint-as-string", replace: true, conf: m{
+			"identity_info_endpoint": idpURL + "/info", "authentication_data_source": []any{m{"header": "X-Token"}},
+			"subject": m{"id": "sub"},
+		}},
+		{kind: "authenticators", typ: "jwt", name: "endpoint-as-string", replace: true,
+			conf: m{"jwks_endpoint": idpURL + "/jwks", "assertions": m{"issuers": []any{"iss"}}}},
+		{kind: "authenticators", typ: "oauth2_introspection", name: "endpoint-as-string", replace: true,
+			conf: m{"introspection_endpoint": idpURL + "/introspect", "assertions": m{"issuers": []any{"iss"}}}},
 		{kind: "finalizers", typ: "jwt", name: "ttl", conf: m{"ttl": "5m"}},
 		{kind: "finalizers", typ: "jwt", name: "claims", conf: m{"claims": `{"a":"b"}`}},
 		{kind: "finalizers", typ: "jwt", name: "header-name-only", conf: m{"header": m{"name": "X-T"}}},
